@@ -73,6 +73,14 @@ func init() {
 			for _, s := range cor {
 				c.san(pid, pol, []byte(s))
 			}
+			for _, bad := range []string{"javascript:alert(1)", "JaVaScRiPt:alert(1)", "data:text/html,x", "vbscript:x", "not a url", " ", "http://ex ample.com/"} {
+				for _, pos := range [][2]string{{"a", "href"}, {"area", "href"}, {"img", "src"}, {"blockquote", "cite"}, {"q", "cite"}, {"del", "cite"}} {
+					for _, first := range []string{"not a url", "http://example.com/", "", "javascript:x", "/ok"} {
+						c.san(pid, pol, []byte("<"+pos[0]+" "+pos[1]+"=\""+first+"\" "+pos[1]+"=\""+bad+"\">x</"+pos[0]+">"))
+						c.san(pid, pol, []byte("<"+pos[0]+" "+pos[1]+"=\""+first+"\" "+pos[1]+"=\""+first+"\" "+pos[1]+"=\""+bad+"\" title=t>x"))
+					}
+				}
+			}
 			g := bmx.NewDocGen(c.r, ugcVocabOps())
 			for i := 0; i < c.n/2; i++ {
 				switch i % 4 {
@@ -101,6 +109,13 @@ func init() {
 			g := bmx.NewDocGen(c.r, ugcVocabOps())
 			for i := 0; i < c.n/4; i++ {
 				emit(pid, pol, g.Doc(1+c.r.Intn(16)))
+			}
+			// every pooled URL (raw and HTML-escaped once more) in the UGC URL positions
+			for _, u := range bmx.URLPool {
+				for _, v := range []string{u, html.EscapeString(u), html.EscapeString(html.EscapeString(u))} {
+					q := strings.NewReplacer("\"", "&quot;").Replace(v)
+					emit(pid, pol, []byte("<a href=\""+q+"\">x</a><img src=\""+q+"\"><blockquote cite=\""+q+"\">y</blockquote>"))
+				}
 			}
 		}
 		for i := 0; i < c.n/2; {
@@ -164,10 +179,12 @@ func init() {
 			name := map[string]string{"sanitise_ugc": "@CMDUGC", "sanitise_html_email": "@CMDEMAIL"}[tool]
 			c.pid++
 			fmt.Fprintf(c.w, "policy %d %s -\n", c.pid, name)
-			for i := 0; i < 12; i++ {
+			special := [][]byte{[]byte(" \n"), []byte("\xef\xbb\xbf<b>bom</b>"), []byte("a\r\nb\r"), []byte("x\x00y"), []byte("\xff\xfe<p>"), []byte("<a href=\"http://example.com/\">t</a>\n"),
+				[]byte("\n<p>leading newline</p>"), []byte("trailing space "), []byte("100%"), []byte("\xef\xbb\xbf")}
+			for i := 0; i < 12+len(special); i++ {
 				in := g.Doc(1 + c.r.Intn(30))
-				if i == 0 {
-					in = []byte(" \n")
+				if i < len(special) {
+					in = special[i]
 				}
 				cmd := exec.Command(bin)
 				cmd.Stdin = bytes.NewReader(in)
@@ -175,22 +192,33 @@ func init() {
 				if err != nil {
 					out = []byte("ERROR " + err.Error())
 				}
-				fmt.Fprintf(c.w, "san %d %s %s\n", c.pid, bmx.HexField(in), bmx.HexField(out))
+				fmt.Fprintf(c.w, "cmd %d %s %s\n", c.pid, bmx.HexField(in), bmx.HexField(out))
 			}
 		}
 	}
 
 	// C16: injected write failures and reader failures
 	families["fault"] = func(c *ctx) {
+		round := 0
 		for i := 0; i < c.n; {
 			ops := bmx.RandPolicyOps(c.r)
 			if c.r.Intn(2) == 0 {
 				ops = append(ops, &bmx.Op{Kind: "AC"})
 			}
+			round++
+			if round%4 == 0 {
+				// every kind of write: raw script/style text (AllowUnsafe), comments, spaces, tags, text
+				ops = []*bmx.Op{{Kind: "UN", Flag: true}, {Kind: "AE", Names: []string{"script", "style", "b", "p"}}, {Kind: "AC"},
+					{Kind: "SP", Flag: round%8 == 0}, {Kind: "AA", Names: []string{"id"}, Scope: "G"}}
+			}
 			pid, pol := c.policy(ops)
 			g := bmx.NewDocGen(c.r, ops)
 			for k := 0; k < 3; k++ {
 				in := g.Doc(1 + c.r.Intn(10))
+				if round%4 == 0 {
+					in = []byte(bmx.Pick(c.r, []string{"<p>a<script>var x = 1 < 2;</script>b<!-- c --><style>p{}</style><i>c</i></p>",
+						"<script>unterminated", "<b id=1>t</b><style>x{y:z}</style><!--c-->", "x<script>s</script><script>t</script>y"}))
+				}
 				if strings.TrimSpace(string(in)) == "" {
 					continue
 				}
@@ -476,6 +504,19 @@ func init() {
 					}
 				}
 			}
+			// search around the matcher's *current* regexp: strings sampled from its syntax tree,
+			// plain and with one hostile insertion
+			if re, ok := m.(interface{ String() string }); ok {
+				if node, err := bmx.ParseRe(re.String()); err == nil {
+					for k := 0; k < 400; k++ {
+						v := bmx.SampleRe(c.r, node, 0)
+						emit(v)
+						h := bmx.MatcherHostile[c.r.Intn(len(bmx.MatcherHostile))]
+						p := c.r.Intn(len(v) + 1)
+						emit(v[:p] + h + v[p:])
+					}
+				}
+			}
 			// all strings up to a length bound over the matcher's alphabet plus hostile characters
 			alpha := bmx.MatcherAlphabet[name] + "<>\"=`\x00 ſK.é"
 			maxLen := 3
@@ -546,6 +587,8 @@ func init() {
 			directedC03(c)
 		case "C07":
 			directedC07(c)
+		case "C14":
+			directedC03(c)
 		case "C02":
 			directedC02(c)
 		case "C10":
